@@ -11,6 +11,10 @@ for fn in sorted(os.listdir(d)):
     if fn.endswith(".json"):
         r = json.load(open(os.path.join(d, fn)))
         reg[r["property_id"]] = r
+ready_path = os.path.join(d, "READY")
+if os.path.exists(ready_path):
+    ready = set(open(ready_path).read().split())
+    reg = dict((k, v) for k, v in reg.items() if k in ready)
 na_path = os.path.join(d, "not_applicable.txt")
 na_reason = {}
 if os.path.exists(na_path):
